@@ -120,10 +120,14 @@ func genBoundary(repo, out string) {
 							found := ""
 							ast.Inspect(e, func(m ast.Node) bool {
 								if c, ok := m.(*ast.CallExpr); ok {
-									switch callName(c) {
-									case "bsonkit.Transform", "bsonkit.TransformList", "len":
+									// only append() hands its arguments on; every other call is
+									// checked as a use of the argument
+									if callName(c) != "append" {
 										return false
 									}
+								}
+								if _, ok := m.(*ast.StarExpr); ok {
+									return false // dereference of a pointer to a scalar option
 								}
 								if id, ok := m.(*ast.Ident); ok {
 									if p, ok := tainted[id.Name]; ok && found == "" {
@@ -191,7 +195,9 @@ func genBoundary(repo, out string) {
 							if p.X != child {
 								okUse = true // it is the field name, not the variable
 							}
-						case *ast.StarExpr, *ast.ParenExpr, *ast.IndexExpr:
+						case *ast.StarExpr:
+							okUse = true // dereference of a pointer to a scalar option
+						case *ast.ParenExpr, *ast.IndexExpr:
 						case *ast.CallExpr:
 							name := callName(p)
 							switch {
@@ -224,7 +230,9 @@ func genBoundary(repo, out string) {
 							}
 							status[param] = "Unknown:" + src(p)
 							okUse = true
-						case *ast.KeyValueExpr, *ast.CompositeLit, *ast.ReturnStmt, *ast.SendStmt, *ast.GoStmt:
+						case *ast.KeyValueExpr, *ast.CompositeLit:
+							// embedded in a literal: the literal is then judged by its own context
+						case *ast.ReturnStmt, *ast.SendStmt, *ast.GoStmt:
 							status[param] = "Unknown:" + src(p)
 							okUse = true
 						case ast.Stmt:
@@ -333,7 +341,12 @@ func genBoundary(repo, out string) {
 	}
 
 	var items []string
+	seenRow := map[[3]string]bool{}
 	for _, r := range rows {
+		if seenRow[r] {
+			continue
+		}
+		seenRow[r] = true
 		items = append(items, "("+coqStr(r[0])+", "+coqStr(r[1])+", "+coqStr(r[2])+")")
 	}
 	writeGen(out, "Boundary.v", "(* (method, component, crossing) for every value that crosses the driver API boundary *)\nDefinition gen_boundary : list (string * string * string) := "+coqList(items)+".\n")
